@@ -185,6 +185,7 @@ type hookCase struct {
 	Ctx     int      `json:"ctx"`
 	Batches [][]file `json:"batches"`
 	Via     string   `json:"via,omitempty"` // trunc: "direct" or "limitSender"
+	Arrival string   `json:"arrival,omitempty"`
 }
 
 func pickLimit(r *gen.Rand, total int) int {
@@ -320,6 +321,10 @@ func genHookCase(r *gen.Rand, op string, malformed bool) hookCase {
 	if r.Chance(1, 4) {
 		nFiles = r.Range(4, 14)
 	}
+	fullThenLow := op == "agg" && r.Chance(1, 2)
+	if fullThenLow {
+		nFiles = r.Range(7, 14)
+	}
 	nextID := 1
 	// distinct integral scores; a narrow band makes the 0.9 novelty threshold bite both ways
 	base := r.Range(5, 400)
@@ -354,15 +359,71 @@ func genHookCase(r *gen.Rand, op string, malformed bool) hookCase {
 	if op == "agg" && c.D == 0 && c.M == 0 && r.Chance(2, 3) {
 		c.D = r.Range(1, 5)
 	}
-	// split into batches (some empty)
-	nb := r.Range(1, 4)
-	c.Batches = make([][]file, nb)
-	for _, f := range files {
-		b := r.Intn(nb)
-		c.Batches[b] = append(c.Batches[b], f)
-	}
-	if r.Chance(1, 6) {
-		c.Batches = append(c.Batches, nil)
+	if fullThenLow {
+		// "full aggregate, late low batches": the first shard result fills the bounded aggregate with the best files
+		// (plus a few stragglers, so that a low-scoring file with a rare extension can sit promoted in third place);
+		// the later shard results only bring files that score below everything kept, most of them with extensions the
+		// aggregate already holds.  This is where shortcuts for "the aggregate is already full" and incremental
+		// (merge instead of re-rank) aggregation go wrong.
+		c.Arrival = "full-then-low"
+		c.D = r.Range(3, min(6, nFiles-1))
+		if r.Chance(1, 3) {
+			c.M = 0
+		} else {
+			c.M = total + r.Range(0, 3) // not the binding limit
+		}
+		// few extensions, skewed: most files share one, one or two are rare
+		common, rare := 1+r.Intn(3), 1+r.Intn(3)
+		for i := range files {
+			files[i].Ext = common
+			if r.Chance(1, 3) {
+				files[i].Ext = rare
+			}
+			if r.Chance(1, 12) {
+				files[i].Ext = r.Intn(len(extNames))
+			}
+		}
+		if r.Chance(2, 3) {
+			// a tight band: every file is within 10% of the best, so the 0.9 novelty threshold never excludes a candidate
+			used := map[int]bool{}
+			for i := range files {
+				v := 10*base + r.Intn(base)
+				for used[v] {
+					v++
+				}
+				used[v] = true
+				files[i].Score = v
+			}
+		}
+		byScore := append([]file(nil), files...)
+		sort.Slice(byScore, func(i, j int) bool { return byScore[i].Score > byScore[j].Score })
+		if r.Chance(2, 3) { // the two best files share the common extension: the rare one is "novel"
+			byScore[0].Ext, byScore[1].Ext = common, common
+		}
+		k := min(c.D+r.Intn(2), nFiles-1)
+		nb := r.Range(2, 4)
+		c.Batches = make([][]file, nb)
+		for i, f := range byScore {
+			switch {
+			case i < k || r.Chance(1, 4):
+				c.Batches[0] = append(c.Batches[0], f)
+			default:
+				b := 1 + r.Intn(nb-1)
+				c.Batches[b] = append(c.Batches[b], f)
+			}
+		}
+		gen.Shuffle(r, c.Batches[0])
+	} else {
+		// split into batches (some empty)
+		nb := r.Range(1, 4)
+		c.Batches = make([][]file, nb)
+		for _, f := range files {
+			b := r.Intn(nb)
+			c.Batches[b] = append(c.Batches[b], f)
+		}
+		if r.Chance(1, 6) {
+			c.Batches = append(c.Batches, nil)
+		}
 	}
 	if op == "trunc" {
 		c.Via = gen.Pick(r, []string{"direct", "limitSender"})
@@ -472,7 +533,106 @@ func emitHook(w *gen.Writer, c hookCase, class string) {
 	if impl == "panic" {
 		cl += "/panic"
 	}
+	if c.Op == "agg" {
+		countAggScenario(w, c)
+	}
 	w.Emit(gen.Case{In: c.in(), Impl: impl, Class: cl, Nontrivial: n >= 2 && (c.D > 0 || c.M > 0), Detail: gen.Detail(map[string]any{"hook": c})})
+}
+
+// countAggScenario prints how often the generated arrival orders reach the states in which an incremental aggregation
+// can go wrong (computed on the model files by a small simulation of rank + truncate: by score, promotion to third
+// place, first D files; match limits are ignored here — this only feeds distribution counters).
+func countAggScenario(w *gen.Writer, c hookCase) {
+	if c.D <= 0 {
+		return
+	}
+	rank := func(fs []file) ([]file, bool) {
+		out := append([]file(nil), fs...)
+		sort.SliceStable(out, func(i, j int) bool { return out[i].Score > out[j].Score })
+		if len(out) <= 3 {
+			return out, false
+		}
+		for i := 2; i < len(out); i++ {
+			if 10*out[i].Score < 9*out[2].Score || out[i].Ext == out[0].Ext || out[i].Ext == out[1].Ext {
+				continue
+			}
+			f := out[i]
+			copy(out[3:i+1], out[2:i])
+			out[2] = f
+			return out, i > 2
+		}
+		return out, false
+	}
+	var agg []file
+	promotedKept := false
+	fullLate, fullLateSameExt, fullLateWithPromoted := false, false, false
+	for _, b := range c.Batches {
+		if len(b) == 0 {
+			continue
+		}
+		if len(agg) >= c.D {
+			low := agg[len(agg)-1].Score
+			for _, f := range agg {
+				low = min(low, f.Score)
+			}
+			below, sameExt := true, true
+			for _, f := range b {
+				if f.Score >= low {
+					below = false
+				}
+				has := false
+				for _, g := range agg {
+					if g.Ext == f.Ext {
+						has = true
+					}
+				}
+				if !has {
+					sameExt = false
+				}
+			}
+			if below {
+				fullLate = true
+				if sameExt {
+					fullLateSameExt = true
+					if promotedKept {
+						fullLateWithPromoted = true
+					}
+				}
+			}
+		}
+		ranked, promoted := rank(append(append([]file(nil), agg...), b...))
+		agg = ranked[:min(c.D, len(ranked))]
+		promotedKept = promoted && c.D >= 3
+	}
+	if all, promoted := rank(flatFiles(c.Batches)); promoted && len(all) > 2 {
+		// the unlimited ranking promotes all[2]: did it arrive when the aggregate was already full?
+		n := 0
+		for _, b := range c.Batches {
+			for _, f := range b {
+				if f.ID == all[2].ID && n >= c.D {
+					w.Count("agg-scenario/the-unlimited-ranking-promotes-a-file-that-arrived-after-the-aggregate-was-full", 1)
+				}
+			}
+			n += len(b)
+		}
+	}
+	if fullLate {
+		w.Count("agg-scenario/batch-arrives-below-a-full-aggregate", 1)
+	}
+	if fullLateSameExt {
+		w.Count("agg-scenario/…and-brings-only-extensions-already-kept", 1)
+	}
+	if fullLateWithPromoted {
+		w.Count("agg-scenario/…while-a-promoted-file-sits-in-third-place", 1)
+	}
+}
+
+func flatFiles(bs [][]file) []file {
+	var out []file
+	for _, b := range bs {
+		out = append(out, b...)
+	}
+	return out
 }
 
 // ---------- main ----------
